@@ -161,10 +161,9 @@ def inproc(ctx):
     defs = "Definition cases : list case4 := [\n%s\n].\n" % ";\n".join(terms)
     defs += "Definition nestchk : list bool := [%s].\n" % "; ".join(
         coq.coq_bool(c["complete"] and not has_switch(c["cfg"])) for c in cases)
-    # embedded sub-history (theorem C05_recorded_is_embedded_subhistory): every switch-free option set, complete
-    # forest within --max-stack - also inside the known -pg leak class
-    embi = [i for i, c in enumerate(cases) if c["complete"] and not has_switch(c["cfg"])
-            and c02.height(c["forest"]) <= (c["cfg"].get("max_stack") or 1024)]
+    # embedded sub-history (theorems C05_recorded_is_embedded_subhistory / C02_..._any_depth): every switch-free
+    # option set, complete forest of any depth - also inside the known -pg leak class
+    embi = [i for i, c in enumerate(cases) if c["complete"] and not has_switch(c["cfg"])]     # any depth, also beyond --max-stack
     defs += "Definition embchk : list bool := [\n%s\n].\n" % ";\n".join(
         "ok_emb %s %s" % (F.coq_forest(cases[i]["forest"]), mcgen.coq_recs(cases[i]["res"]["recs"])) for i in embi)
     plain = [(i, c02.coq_plain_check(c["cfg"], c["forest"], c["res"]["recs"])) for i, c in enumerate(cases)
